@@ -649,6 +649,12 @@ func init() {
 	}
 	intrinsics["os.Getenv"] = func(fr *frame, args []value) value { return "" }
 	intrinsics["runtime.Gosched"] = nop
+	// func Caller(skip int) (pc uintptr, file string, line int, ok bool): the interpreter has no machine stack;
+	// callers (diagnostic bookkeeping only) are told that the information is unavailable
+	intrinsics["runtime.Caller"] = func(fr *frame, args []value) value {
+		fr.i.path.res.Intrinsics["runtime.Caller(unavailable)"]++
+		return tuple{uintptr(0), "", int(0), false}
+	}
 	intrinsics["errors.Is"] = nil
 	delete(intrinsics, "errors.Is")
 }
